@@ -128,7 +128,8 @@ def regenerate():
 
 def make(targets=(), timeout=1500):
     """Full .vo build of the Coq project (never -vos). Returns (ok, log)."""
-    if not os.path.exists(os.path.join(COQ, 'Makefile')):
+    mk, cp = os.path.join(COQ, 'Makefile'), os.path.join(COQ, '_CoqProject')
+    if not os.path.exists(mk) or os.path.getmtime(mk) < os.path.getmtime(cp):
         subprocess.run(['coq_makefile', '-f', '_CoqProject', '-o', 'Makefile'],
                        cwd=COQ, check=True, stdout=subprocess.DEVNULL,
                        stderr=subprocess.DEVNULL)
